@@ -226,9 +226,9 @@ def wild_cases(rng, n):
 PARAMS = ["alpha", "beta", "lr", "epochs", "dataset_name", "n_items", "path_to", "seed", "momentum", "verbose_level", "tag", "ratio"]
 DOCS = ["the alpha thing", "dataset name", "learning rate used", "a thing", "some text here", "level of verbosity", "batch count here", "Random seed"]
 HEAD_DOCS = ["Summary line", "Train the model", "Configuration of the run", "Acquire the data"]
-CLASS_NAMES = ["ConfigClass", "K", "Settings"]
-METHOD_PATHS = ["C.m", "Trainer.run", "Runner.train_step", "run_it", "main_fn"]
-ARGPARSE_NAMES = ["set_cli_args", "cli_args"]
+CLASS_NAMES = ["ConfigClass", "K", "Settings", "Config", "Run"]
+METHOD_PATHS = ["C.m", "Trainer.run", "Runner.train_step", "run_it", "main_fn", "Config.run", "Run.run_it"]
+ARGPARSE_NAMES = ["set_cli_args", "cli_args", "run"]
 UNRELATED_TOP = [
     "import os\n",
     "from typing import Optional\n",
@@ -252,6 +252,42 @@ UNRELATED_IN_CLASS = [
     "@staticmethod\ndef stat(y):\n    return y\n",
     "# comment inside class\nflag = True\n",
 ]
+
+
+# surrounding code that mentions a target's name as DATA (annotate_ancestry gives string constants a `_location`, too), and
+# definitions whose names are prefixes / extensions of the target's name
+NAME_AS_DATA = [
+    "__all__ = [\"NAME\", \"other_symbol\"]\n",
+    "__all__ = [\"zzz\", \"NAME\"]\n",
+    "TARGET_NAME = \"NAME\"\n",
+    "REGISTRY = {\"NAME\": 1, \"zzz\": 2}\n",
+    "\"NAME\"\n",
+    "ALL_OF = (\"NAME\", \"NAME\")\n",
+    "log(\"NAME\", key=\"NAME\")\n",
+]
+NAME_RELATED_DEFS = [
+    "class NAMEBase(object):\n    \"\"\"NAMEBase doc\"\"\"\n\n    base_attr: int = 1\n",
+    "class PREFIX(object):\n    pass\n",
+    "NAME_DEFAULT = 3\n",
+    "PREFIX: int = 4\n",
+    "async def NAME_async(url):\n    return url\n",
+]
+
+
+def data_mentions(rng, path):
+    """0-2 snippets mentioning the target (one of its path components, or the dotted name) as data / as a related identifier"""
+    out = []
+    for _ in range(rng.choice([0, 1, 1, 2])):
+        if rng.random() < 0.7:
+            nm = rng.choice([path[-1], path[-1], path[0], ".".join(path)])
+            out.append(rng.choice(NAME_AS_DATA).replace("NAME", nm))
+        else:
+            nm = path[-1]
+            pfx = nm[:max(1, len(nm) // 2)].rstrip("_") or "p"
+            if pfx == nm or not pfx.isidentifier():
+                pfx = nm + "_"
+            out.append(rng.choice(NAME_RELATED_DEFS).replace("NAME", nm).replace("PREFIX", pfx + "_px"))
+    return out
 
 
 SAME_NAMED_AFTER = [
@@ -338,6 +374,9 @@ def build_file(rng, kind, name, iface, state):
     n_after = rng.randint(0, 3)
     before = [rng.choice(UNRELATED_TOP) for _ in range(n_before)]
     after = [rng.choice(UNRELATED_TOP) for _ in range(n_after)]
+    if rng.random() < 0.5:
+        for snip in data_mentions(rng, path):
+            (before if rng.random() < 0.6 else after).insert(0 if rng.random() < 0.5 else 10 ** 6, snip)
     if state == "absent":
         body = before + after or ["LIMIT = 10\n"]
         text = "\n".join(parts + body)
@@ -431,9 +470,12 @@ def build_history_case(rng, k):
     pool = [u for u in UNRELATED_TOP if len(path) == 1 or not u.startswith("def ")]
     pre = [rng.choice(pool) for _ in range(rng.randint(0, 2))]
     post = [rng.choice(UNRELATED_TOP) for _ in range(rng.randint(0, 2))]
+    if rng.random() < 0.4:
+        pre = data_mentions(rng, path) + pre
     cstate = rng.choice(["synced-prefix", "synced-prefix", "empty", "present"])
     if cstate == "synced-prefix":
-        cls_text = "\n".join([rng.choice(UNRELATED_TOP) for _ in range(rng.randint(0, 2))] + [emitter_class_text(names["class"], edit_iface(rng, iface))]
+        cls_text = "\n".join((data_mentions(rng, [names["class"]]) if rng.random() < 0.5 else []) +
+                             [rng.choice(UNRELATED_TOP) for _ in range(rng.randint(0, 2))] + [emitter_class_text(names["class"], edit_iface(rng, iface))]
                              + [rng.choice(UNRELATED_TOP) for _ in range(rng.randint(0, 2))])
     elif cstate == "empty":
         cls_text = ""
@@ -752,6 +794,32 @@ def classify_outcome(before, after, path):
     return "rewritten"
 
 
+def const_collision(text, path):
+    """Does a string constant of the module get the target's `_location` under annotate_ancestry's rule *as it is in the pinned
+    tree* (`parent_location + [value]`, `parent_location` = location of the named node annotated last, in ast.walk order)?  Own
+    re-implementation on purpose: the signature must not move when the code under test changes."""
+    if not text:
+        return False
+    try:
+        mod = ast.parse(text)
+    except SyntaxError:
+        return False
+    parent_location = []
+    for node in ast.walk(mod):
+        name = [node.name] if hasattr(node, "name") else []
+        for ch in ast.iter_child_nodes(node):
+            if hasattr(ch, "name") and not isinstance(ch, ast.alias):
+                parent_location = name + [ch.name]
+            elif isinstance(ch, ast.Constant):
+                if parent_location + [ch.value] == path:
+                    return True
+    return False
+
+
+def collisions(case, texts):
+    return [k for k in KINDS if const_collision(texts[k], [c.strip() for c in case["names"][k].split(".")])]
+
+
 def state_of(text, path):
     if text is None:
         return "missing"
@@ -794,8 +862,10 @@ def oracle_phase(chk, case, before, states, snaps):
     if first["rc"] != 0:
         # which file was being processed? the first one (in order) that a working run would have touched but is untouched
         missing_fn = before["function"] is None
+        coll = collisions(case, before)
         fail({"clause": "crash", "exc": first["exc"], "function_file_missing": missing_fn, "truth_method_after_toplevel_def": truth_quirk(case),
-              "states": "/".join(case["states"][k] for k in KINDS) if not (missing_fn or truth_quirk(case)) else "*"},
+              "const_collision": coll[0] if coll else False,
+              "states": "/".join(case["states"][k] for k in KINDS) if not (missing_fn or truth_quirk(case) or coll) else "*"},
              "sync exits %s: %s" % (first["rc"], first["stderr"].strip().splitlines()[-1] if first["stderr"].strip() else ""))
     invalid = any(first["files"][k] is not None and not is_python(first["files"][k]) for k in KINDS)
     glued = [k for k in KINDS if classify_outcome(before[k], first["files"][k], []) == "glued-append"]
@@ -889,6 +959,7 @@ def check_sync_cases(chk, cases, label):
             c, snap = cases[i], real[i][run]
             realj = {k: file_json(snap["files"][k]) for k in KINDS}
             bad = None
+            collide = []
             if "error" in out:
                 bad = "driver: %s" % out["error"]
             else:
@@ -898,6 +969,7 @@ def check_sync_cases(chk, cases, label):
                     chk.coverage["sync_out_of_model"] = chk.coverage.get("sync_out_of_model", 0) + 1
                     continue
                 texts0 = snap["before"]
+                collide = collisions(c, texts0)
                 if any(isinstance(v, dict) for v in realj.values()) or \
                         any(classify_outcome(texts0[k], snap["files"][k], []) == "glued-append" for k in KINDS):
                     # a real file is not valid Python / text was glued onto a last line without newline: a text-level effect of
@@ -933,7 +1005,12 @@ def check_sync_cases(chk, cases, label):
                         flagstats[key] = flagstats.get(key, 0) + 1
                         if mf and rf == "unchanged":
                             bad = "model says %s modified, the real run printed unchanged" % FNAME[k]
-            if bad:
+            if bad and "error" not in out and collide:
+                # a string constant carries the target's `_location`: RewriteAtQuery replaces an *expression*, which the
+                # statement-level model cannot represent (trusted base); the oracle reports what happens
+                alive[i] = False
+                chk.coverage["sync_constant_location_collision"] = chk.coverage.get("sync_constant_location_collision", 0) + 1
+            elif bad:
                 n_dis += 1
                 alive[i] = False
                 chk.disagreement("C12 correspondence: Sync.sync vs `python -m cdd sync` (%s)" % label,
@@ -1020,7 +1097,7 @@ def run(chk: core.Check) -> int:
     chk.coverage["rewrite_outcomes"] = kinds_r
     # ---- (2) the real CLI on triples of files ---------------------------------------------------------------
     cases = [build_case(rng, k) for k in range(160 if chk.quick else 1600)]
-    cases = witness_cases() + cases + [build_history_case(rng, k) for k in range(40 if chk.quick else 400)]
+    cases = witness_cases() + fixed_cases() + cases + [build_history_case(rng, k) for k in range(40 if chk.quick else 400)]
     n_s, real = check_sync_cases(chk, cases, "structured") if have_driver else (0, [run_real(c) for c in cases])
     chk.oblige("correspondence Sync.sync = `python -m cdd sync` (files after every run) on %d triples, %d CLI runs" % (len(cases), sum(c["runs"] for c in cases)),
                "correspondence", have_driver and n_s == 0, "%d disagreements" % n_s)
@@ -1055,6 +1132,24 @@ def run(chk: core.Check) -> int:
                       "(class file, method file, argparse file) with mutually different interfaces or empty/missing/target-less files, unrelated "
                       "surrounding code, truth in {class, function, argparse_function}, 1-3 consecutive real CLI runs; non-trivial = find hits / "
                       "rewrite changes something / the first run changes a file")
+
+
+def fixed_cases():
+    """hand-written modules that mention the target names as data (run on every seed)"""
+    w = {c["id"]: c for c in witness_cases()}["witness-never-rewritten"]
+    cls, meth, argp = w["files"]["class"], w["files"]["function"], w["files"]["argparse_function"]
+    st = dict(w["states"])
+    data_cls = '__all__ = ["K", "other"]\nNAME = "K"\nREG = {"K": 1}\n"K"\n\n' + cls + '\n__all__ += ["K"]\n'
+    data_argp = '"""set_cli_args"""\n__all__ = ["set_cli_args"]\n\n' + argp + '\nDISPATCH = {"set_cli_args": set_cli_args}\n'
+    data_meth = '__all__ = ["C", "C.m"]\n\n' + meth + '\nHANDLERS = {"m": C.m, "C": C}\n'
+    return [
+        # the class differs from a function truth: it must be rewritten, `__all__` and the other mentions untouched
+        {"id": "fixed-names-as-data", "truth": "argparse_function", "names": w["names"], "states": st,
+         "files": {"class": data_cls, "function": data_meth, "argparse_function": data_argp}, "runs": 2},
+        # finding C12-string-constant-at-method-location: `HANDLER = "m"` before `class C` gets `_location == ['C', 'm']`
+        {"id": "fixed-constant-at-method-location", "truth": "class", "names": w["names"], "states": st,
+         "files": {"class": cls, "function": '__all__ = ["C"]\nHANDLER = "m"\n\n' + meth, "argparse_function": argp}, "runs": 1},
+    ]
 
 
 WITNESS_EXPECT = {
